@@ -108,6 +108,8 @@ Judge(e) ==
   CASE e.ev = "pin" -> JPin(e)
     [] e.ev = "pin_flip" -> ~e.panic /\ e.res = "err"
     [] e.ev = "pin_reconnect" -> JPinReconnect(e)
+    \* an untrusted self-signed server is refused by the default policy, whatever SSL_CERT_FILE names
+    [] e.ev = "pin_env" -> ~e.panic /\ e.plain = "err" /\ e.with_ssl_cert_file = "err"
     \* PinRule looks at the leaf only (valid P-256 leaves, now inside a 5-day period): accepted iff the LEAF is pinned
     [] e.ev = "pin_chain" -> ~e.panic /\ (e.res = "ok") = e.leaf_pinned
     [] e.ev = "selfsigned" -> JSelfSigned(e)
